@@ -336,14 +336,28 @@ def _format_model(obj, spec=""):
 
 
 def _format(obj, spec=""):
-    f = None
+    f = g = None
     with NoTracing():
         t = type(obj)
         if t is not str and t is not int:
             f = _user_method(obj, "__format__")
+            if f is None and type(spec) is str and spec == "" and getattr(t, "__format__", None) is object.__format__:
+                # object.__format__(x, "") is str(x)
+                g = _user_method(obj, "__str__")
     if f is not None:
         HIT.add("E6")
         return f(obj, spec)
+    if g is not None:
+        HIT.add("E6")
+        return g(obj)
+    with NoTracing():
+        exc_text = (isinstance(obj, BaseException) and type(spec) is str and spec == ""
+                    and type(obj).__str__ is BaseException.__str__ and len(obj.args) == 1
+                    and isinstance(obj.args[0], (str, AnySymbolicStr)))
+    if exc_text:
+        # str(exception) is its single message argument
+        HIT.add("E6")
+        return obj.args[0]
     return _format_model(obj, spec)
 
 
@@ -563,14 +577,24 @@ _PATCH_REGISTRATIONS[getattr] = _getattr
 _prev_str = _PATCH_REGISTRATIONS[str]
 
 
+_str_depth = [0]
+
+
 def _str_m1(*a):
-    if len(a) == 1:
+    if _str_depth[0] > 0:
+        # re-entered from CrossHair's own str patch (its fall-through `str(*a)` for 0 or >= 2 arguments)
         with NoTracing():
-            hit = isinstance(a[0], SymbolicBytes) and _in_error_message()
-        if hit:
-            HIT.add("M1")
-            return "?"
-    return _prev_str(*a)
+            return str(*a)
+    with NoTracing():
+        hit = len(a) == 1 and isinstance(a[0], SymbolicBytes) and _in_error_message()
+    if hit:
+        HIT.add("M1")
+        return "?"
+    _str_depth[0] += 1
+    try:
+        return _prev_str(*a)
+    finally:
+        _str_depth[0] -= 1
 
 
 _PATCH_REGISTRATIONS[str] = _str_m1
